@@ -713,6 +713,10 @@ def call_term(e, ctx):
                 return var("Rank", "st")
             if n in ("max", "min") and recv is not None and "numeric_limits" in astx.show(recv):
                 return unk(e)
+            # any other zero-argument const member that is a one-line `return e;` (private predicates such as is_full())
+            r = _plain_getter(o, n, ctx)
+            if r is not None:
+                return r
         return unk(e)
     # free functions
     if n in ("max", "min") and len(args) == 0 and "numeric_limits" in (q or ""):
@@ -735,6 +739,11 @@ def call_term(e, ctx):
             return ("cmp", "==", size_of(o, ctx), c(0))
         if n == "full":
             return ("cmp", "==", size_of(o, ctx), getter(o, "capacity", ctx, ctx.depth))
+    if len(args) == 0 and e["f"].get("d") in ("func", "CXXMethod", "unresolved") and e["f"].get("k") in ("ref", "mem") and \
+            not (e["f"].get("qual") or ""):
+        r = _plain_getter(ctx.this_name, n, ctx)
+        if r is not None:
+            return r
     if n in ("min", "max") and len(args) == 2:
         return (n, to_term(args[0], ctx), to_term(args[1], ctx))
     if n == "clamp" and len(args) == 3:
@@ -878,6 +887,29 @@ def getter(o, n, ctx, depth=0):
     _CUR["ctx"] = ctx
     if has_unknown(r) and role:
         return canonical(role, o)
+    return r
+
+
+def _plain_getter(o, n, ctx):
+    """inline a zero-argument const member without a role when it is a one-line return of a fully modelled term"""
+    if ctx.db is None or ctx.depth > 4 or n in ROLE:
+        return None
+    try:
+        rec_q, _tmap = ctx.record_of(o)
+    except Exception:
+        return None
+    if rec_q is None:
+        return None
+    cands = [f for f in ctx.db.methods(rec_q, n) if len(f["params"]) == 0]
+    if not cands or not all(f.get("const") or f.get("static") for f in cands):
+        return None
+    saved = _CUR.get("ctx")
+    try:
+        r = getter(o, n, ctx, ctx.depth)
+    finally:
+        _CUR["ctx"] = saved if saved is not None else ctx
+    if r is None or has_unknown(r):
+        return None
     return r
 
 
